@@ -117,7 +117,16 @@ func pkColumns(schema *sdb.Schema, ind *sdb.SchemaIndex) []int {
 
 	var res []int
 	for _, c := range schema.PK {
-		if in := ind.Column(c.Column); in < 0 {
+		// SQLite only reuses an index column for the primary key if it
+		// also has the same collation, otherwise the column is added again.
+		in := -1
+		for i, ic := range ind.Columns {
+			if strings.EqualFold(ic.Column, c.Column) && sameCollate(ic.Collate, c.Collate) {
+				in = i
+				break
+			}
+		}
+		if in < 0 {
 			ind.Columns = append(ind.Columns, c)
 			res = append(res, len(ind.Columns)-1)
 		} else {
@@ -125,4 +134,14 @@ func pkColumns(schema *sdb.Schema, ind *sdb.SchemaIndex) []int {
 		}
 	}
 	return res
+}
+
+func sameCollate(a, b string) bool {
+	if a == "" {
+		a = sdb.DefaultCollate
+	}
+	if b == "" {
+		b = sdb.DefaultCollate
+	}
+	return strings.EqualFold(a, b)
 }
